@@ -23,4 +23,6 @@ def p_thrift(ctx):
 
 def run(ctx):
     from ._callsites import p_callsites
-    return run_property(ctx, "proof", EXPLANATION, p_parts=[p_kernels, p_callsites, p_thrift], b_modules=[])
+    from ._generic import optional_parts
+    extra = optional_parts(("_hybrid", "p_hybrid"), ("_encoders", "p_encoders"), ("_speedups", "p_speedups"), ("_assembly", "p_assembly"))
+    return run_property(ctx, "proof", EXPLANATION, p_parts=[p_kernels, p_callsites, p_thrift] + extra, b_modules=[])
